@@ -38,3 +38,273 @@ Proof.
   intros P Q. induction ops as [|o r IH]; intros s Hs; [reflexivity|].
   rewrite check_run_cons, (Q s o Hs), (IH _ (P s o Hs)). reflexivity.
 Qed.
+
+(* ------------------------------------------------------------------ the invariant *)
+Definition is_baseh (k : hkind) : bool := match k with HUser | HError | HComponentHs => true | _ => false end.
+Definition is_posth (k : hkind) : bool :=
+  match k with HFeaturesSasl | HFeaturesCompress | HCompressResult | HSm => true | _ => false end.
+
+Definition hasF (s : state) : Prop := In HFeatures (hk s).
+Definition hasT (s : state) : Prop := In HProceedTls (hk s).
+Definition hasS (s : state) : Prop := exists k, In k (hk s) /\ is_saslh k = true.
+Definition hasTMF (s : state) : Prop := In TMissingFeatures (tk s).
+Definition noauth (s : state) : Prop := ~ hasF s /\ ~ hasT s /\ ~ hasS s /\ ~ hasTMF s.
+Definition prepost (s : state) : Prop := (forall i, In i (ik s) -> i = IKLegacy) /\ sm_enabled s = false.
+Definition strong_in (s : state) : Prop := existsb (fun m => negb (is_plain_or_anon m)) (sasl s) = true.
+Definition fresh (s : state) : Prop :=
+  sasl s = [] /\ sm_enabled s = false /\ (forall k, In k (hk s) -> k = HUser) /\
+  (forall i, In i (ik s) -> i = IKLegacy) /\ ~ hasTMF s /\ g_strong (gh s) = false.
+Definition quietS (s : state) : Prop :=
+  (forall k, In k (hk s) -> is_baseh k = true) /\ ~ hasTMF s /\ prepost s.
+(* evidence that the connection is past authentication *)
+Definition evP (s : state) : Prop :=
+  (exists k, In k (hk s) /\ is_posth k = true) \/ In IKBind (ik s) \/ In IKSession (ik s).
+
+Record LInv (s : state) : Prop := mkLInv {
+  li_C : st s = Connecting ->
+         fresh s /\ secured s = false /\ sendq s = [] /\ oh s <> OpenTls /\ oh s <> OpenSasl /\ oh s <> OpenCompress;
+  li_XF : hasF s ->
+          (forall k, In k (hk s) -> is_baseh k = true \/ k = HFeatures) /\ prepost s /\
+          (oh s = OpenAuth \/ oh s = OpenTls) /\ (hasTMF s -> oh s = OpenAuth) /\ (oh s = OpenAuth -> sasl s = []);
+  li_XT : hasT s ->
+          (forall k, In k (hk s) -> is_baseh k = true \/ k = HProceedTls) /\ prepost s /\ ~ hasTMF s /\
+          secured s = false /\ oh s = OpenAuth /\ g_feat_seen (gh s) = true /\
+          (g_strong (gh s) = true -> strong_in s /\ mem_mech MPlain (sasl s) = false);
+  li_XS : forall k, In k (hk s) -> is_saslh k = true ->
+          (forall k', In k' (hk s) -> is_baseh k' = true \/ k' = k) /\ prepost s /\ ~ hasTMF s /\
+          (oh s = OpenAuth \/ oh s = OpenTls) /\ g_feat_seen (gh s) = true /\
+          (g_strong (gh s) = true -> mem_mech MPlain (sasl s) = false);
+  li_XP : forall k, In k (hk s) -> is_posth k = true ->
+          (forall k', In k' (hk s) -> is_baseh k' = true \/ is_posth k' = true) /\ ~ hasTMF s;
+  li_TMF : hasTMF s -> hasF s;
+  li_POA : st s = Connected -> oh s = OpenAuth -> ps s = PDepth0 -> fresh s;
+  li_POT : oh s = OpenTls -> (reset_parser s = true \/ ps s = PDepth0) ->
+           quietS s /\ (g_strong (gh s) = true -> strong_in s) /\ (ps s <> PDepth0 -> g_feat_seen (gh s) = true);
+  li_POP : (oh s = OpenSasl \/ oh s = OpenCompress) -> noauth s;
+  li_O : oh s = OpenTls -> secured s = true /\ st s = Connected;
+  li_R : st s = Connected -> oh s = OpenAuth -> reset_parser s = false;
+  li_RP : st s = Connected -> is_raw s = false -> reset_parser s = true -> ps s <> PDepth0;
+  li_RAW : is_raw s = true ->
+           (oh s = OpenStub \/ oh s = OpenRaw) /\ (forall k, In k (hk s) -> k = HUser) /\
+           (forall i, In i (ik s) -> i = IKLegacy) /\ ~ hasTMF s;
+  li_STUB : (oh s = OpenStub \/ oh s = OpenRaw) -> is_raw s = true;
+  li_COMP : oh s = OpenComponent ->
+            (forall k, In k (hk s) -> is_baseh k = true) /\ (forall i, In i (ik s) -> i = IKLegacy) /\ ~ hasTMF s;
+  li_Q : forall x, In x (sendq s) -> snd x = false -> is_neg (fst (fst x)) = false;
+  li_M : f_tls_mandatory s = true ->
+         (hasS s \/ exists x, In x (sendq s) /\ is_cred (fst (fst x)) = true) -> is_secured s = true;
+  li_D : f_tls_disabled s = true -> forall x, In x (sendq s) -> fst (fst x) <> WStartTls;
+  li_L : forall x, In x (sendq s) -> fst (fst x) = WLegacy -> f_legacy_auth s = true /\ typ s = TClient;
+  li_PL : forall x, In x (sendq s) -> fst (fst x) = WAuth MPlain ->
+          g_strong (gh s) = false /\ g_feat_seen (gh s) = true /\ ps s <> PDepth0
+}.
+(* while HFeatures waits: a strong mechanism seen so far is still in the list *)
+Definition PL3F (s : state) : Prop := hasF s -> crashed s = false -> g_strong (gh s) = true -> strong_in s.
+
+Record GInv (s : state) : Prop := mkGInv {
+  gi_T : tls_support s = false;
+  gi_S : forall w, In w (sw s) -> is_neg w = false
+}.
+(* handler granularity *)
+Definition HInv (s : state) : Prop := GInv s /\ (live s -> LInv s).
+(* step granularity *)
+Definition Inv (s : state) : Prop :=
+  HInv s /\ (live s -> PL3F s) /\ (st s = Disconnected -> sm_enabled s = false).
+
+Lemma is_cred_neg w : is_cred w = true -> is_neg w = true.
+Proof. destruct w; simpl; congruence. Qed.
+Lemma class_cases k : is_baseh k = true \/ k = HFeatures \/ k = HProceedTls \/ is_saslh k = true \/ is_posth k = true.
+Proof. destruct k; simpl; auto 6. Qed.
+
+(* past authentication nothing of the authentication phase is left *)
+Lemma evP_noauth s : LInv s -> evP s -> noauth s.
+Proof.
+  intros L E.
+  assert (X : (exists k, In k (hk s) /\ is_posth k = true) \/ ~ (forall i, In i (ik s) -> i = IKLegacy)).
+  { destruct E as [E|[E|E]]; [left; exact E| |]; right; intro A; specialize (A _ E); discriminate. }
+  clear E. repeat split.
+  - intro F. destruct (li_XF s L F) as [A [[B _] _]]. destruct X as [[k [K1 K2]]|X]; [|tauto].
+    destruct (A k K1) as [Y|Y]; [destruct k; discriminate|subst; discriminate].
+  - intro F. destruct (li_XT s L F) as [A [[B _] _]]. destruct X as [[k [K1 K2]]|X]; [|tauto].
+    destruct (A k K1) as [Y|Y]; [destruct k; discriminate|subst; discriminate].
+  - intros [k0 [F1 F2]]. destruct (li_XS s L k0 F1 F2) as [A [[B _] _]]. destruct X as [[k [K1 K2]]|X]; [|tauto].
+    destruct (A k K1) as [Y|Y]; [destruct k; discriminate|subst; destruct k0; discriminate].
+  - intro F. apply (li_TMF s L) in F. destruct (li_XF s L F) as [A [[B _] _]]. destruct X as [[k [K1 K2]]|X]; [|tauto].
+    destruct (A k K1) as [Y|Y]; [destruct k; discriminate|subst; discriminate].
+Qed.
+
+(* evidence of the post-authentication phase contradicts every "early" shape *)
+Lemma evP_not_early s :
+  evP s -> (forall k, In k (hk s) -> is_baseh k = true \/ k = HFeatures \/ k = HProceedTls \/ is_saslh k = true) ->
+  (forall i, In i (ik s) -> i = IKLegacy) -> False.
+Proof.
+  intros [[k [A B]]|[A|A]] H I.
+  - destruct (H k A) as [X|[X|[X|X]]]; try (subst; discriminate); destruct k; discriminate.
+  - specialize (I _ A). discriminate.
+  - specialize (I _ A). discriminate.
+Qed.
+
+Section Transfer.
+Variables s s' : state.
+Hypothesis Edis : f_tls_disabled s' = f_tls_disabled s.
+Hypothesis Emand : f_tls_mandatory s' = f_tls_mandatory s.
+Hypothesis Elauth : f_legacy_auth s' = f_legacy_auth s.
+Hypothesis Etyp : typ s' = typ s.
+Hypothesis Eraw : is_raw s' = is_raw s.
+Hypothesis Est : st s' = st s.
+Hypothesis Esec : secured s' = secured s.
+Hypothesis Etlsp : tls_present s' = tls_present s.
+Hypothesis Etlsf : tls_failed s' = tls_failed s.
+Hypothesis Esasl : sasl s' = sasl s.
+Hypothesis Erp : reset_parser s' = reset_parser s.
+Hypothesis Eoh : oh s' = oh s.
+Hypothesis Eps : ps s' = ps s.
+Hypothesis Egs : g_strong (gh s') = g_strong (gh s).
+Hypothesis Egf : g_feat_seen (gh s') = g_feat_seen (gh s).
+Hypothesis Hh : forall k, In k (hk s') -> In k (hk s) \/ (is_posth k = true /\ evP s).
+Hypothesis Hi : forall i, In i (ik s') -> In i (ik s) \/ evP s.
+Hypothesis Ht : hasTMF s' -> hasTMF s.
+Hypothesis Hs : sm_enabled s' = sm_enabled s \/ evP s.
+Hypothesis Hq : exists l, sendq s' = sendq s ++ l /\ Forall (fun x => benignE x \/ In (fst (fst x)) (sw s)) l.
+Hypothesis Hoff : st s <> Connected -> sendq s' = sendq s.
+Hypothesis H6 : hasTMF s' -> hasF s -> hasF s'.
+Hypothesis L : LInv s.
+Hypothesis G : GInv s.
+
+Let NA : evP s -> noauth s := evP_noauth s L.
+
+Lemma tr_early (Q : hkind -> Prop) :
+  (forall k, In k (hk s) -> Q k) -> (forall k, Q k -> is_posth k = false) -> (forall i, In i (ik s) -> i = IKLegacy) ->
+  (forall k, In k (hk s') -> Q k) /\ (forall i, In i (ik s') -> i = IKLegacy) /\ sm_enabled s' = sm_enabled s.
+Proof.
+  intros A C B.
+  assert (NE : ~ evP s).
+  { intros [[k [K1 K2]]|[K|K]].
+    - rewrite (C k (A k K1)) in K2. discriminate.
+    - specialize (B _ K). discriminate.
+    - specialize (B _ K). discriminate. }
+  repeat split.
+  - intros k Hk. destruct (Hh k Hk) as [X|[_ X]]; [auto|tauto].
+  - intros i Hi0. destruct (Hi i Hi0) as [X|X]; [auto|tauto].
+  - destruct Hs; tauto.
+Qed.
+
+Lemma tr_new_entry x : In x (sendq s') -> In x (sendq s) \/ is_neg (fst (fst x)) = false.
+Proof.
+  destruct Hq as [l [E A]]. rewrite E, in_app_iff. intros [H|H]; [left; exact H|right].
+  rewrite Forall_forall in A. destruct (A x H) as [B|B]; [exact B|apply (gi_S s G); exact B].
+Qed.
+
+Lemma tr_hasS : hasS s' -> hasS s.
+Proof.
+  intros [k [A B]]. destruct (Hh k A) as [X|[X _]]; [exists k; auto|destruct k; discriminate].
+Qed.
+Lemma tr_hasF : hasF s' -> hasF s.
+Proof. intro A. destruct (Hh _ A) as [X|[X _]]; [exact X|discriminate]. Qed.
+Lemma tr_hasT : hasT s' -> hasT s.
+Proof. intro A. destruct (Hh _ A) as [X|[X _]]; [exact X|discriminate]. Qed.
+Lemma tr_noauth : noauth s -> noauth s'.
+Proof.
+  intros [A [B [C D]]]. repeat split; intro X; [apply A, tr_hasF|apply B, tr_hasT|apply C, tr_hasS|apply D, Ht]; exact X.
+Qed.
+
+Ltac np := let k := fresh "k" in let H := fresh "H" in
+  intros k H; first [destruct H as [H|H]; [destruct k; (discriminate H || reflexivity)|subst; reflexivity]
+                    | subst; reflexivity | destruct k; (discriminate H || reflexivity)].
+
+Lemma linv_transfer : LInv s'.
+Proof.
+  constructor.
+  - (* C *) intro Hc. rewrite Est in Hc. destruct (li_C s L Hc) as [[F1 [F2 [F3 [F4 [F5 F6]]]]] [A [B [C1 [C2 C3]]]]].
+    destruct (tr_early (fun k => k = HUser) F3 ltac:(np) F4) as [X1 [X2 X3]].
+    rewrite Esec, Eoh. repeat split; auto; try congruence.
+    rewrite Hoff; [exact B|congruence].
+  - (* XF *) intro F. pose proof (tr_hasF F) as F0. destruct (li_XF s L F0) as [A [[B1 B2] [C [D E]]]].
+    destruct (tr_early (fun k => is_baseh k = true \/ k = HFeatures) A ltac:(np) B1) as [X1 [X2 X3]].
+    rewrite Eoh, Esasl. repeat split; auto; congruence.
+  - (* XT *) intro F. pose proof (tr_hasT F) as F0. destruct (li_XT s L F0) as [A [[B1 B2] [C [D [E [E2 E3]]]]]].
+    destruct (tr_early (fun k => is_baseh k = true \/ k = HProceedTls) A ltac:(np) B1) as [X1 [X2 X3]].
+    unfold strong_in. rewrite Eoh, Esasl, Esec, Egs, Egf. repeat split; auto; try congruence; apply E3; assumption.
+  - (* XS *) intros k K1 K2.
+    assert (K0 : In k (hk s)) by (destruct (Hh k K1) as [X|[X _]]; [exact X|destruct k; discriminate]).
+    destruct (li_XS s L k K0 K2) as [A [[B1 B2] [C [D [E E2]]]]].
+    destruct (tr_early (fun k' => is_baseh k' = true \/ k' = k) A) as [X1 [X2 X3]]; [|exact B1|].
+    { intros k' [H|H]; [destruct k'; (discriminate H || reflexivity)|subst; destruct k; (discriminate K2 || reflexivity)]. }
+    rewrite Eoh, Esasl, Egs, Egf. repeat split; auto; congruence.
+  - (* XP *) intros k K1 K2.
+    assert (NT : forall k', In k' (hk s) -> is_posth k' = true -> ~ hasTMF s') by
+      (intros k' A B C; apply Ht in C; destruct (li_XP s L k' A B) as [_ X]; tauto).
+    assert (CL : forall k0, In k0 (hk s) -> is_posth k0 = true ->
+                 forall k', In k' (hk s') -> is_baseh k' = true \/ is_posth k' = true).
+    { intros k0 A B k' K'. destruct (Hh k' K') as [X|[X _]]; [|auto]. destruct (li_XP s L k0 A B) as [Y _]. auto. }
+    destruct (Hh k K1) as [X|[_ E]].
+    + split; [eapply CL; eassumption|eapply NT; eassumption].
+    + pose proof (NA E) as [N1 [N2 [N3 N4]]]. split.
+      * intros k' K'. destruct (Hh k' K') as [X|[X _]]; [|auto].
+        destruct (class_cases k') as [Y|[Y|[Y|[Y|Y]]]]; auto; exfalso; subst; try tauto. apply N3. exists k'. auto.
+      * intro C. apply N4, Ht, C.
+  - (* TMF *) intro F. apply H6; [exact F|]. apply (li_TMF s L), Ht, F.
+  - (* POA *) intros A B C. rewrite Est in A. rewrite Eoh in B. rewrite Eps in C.
+    destruct (li_POA s L A B C) as [F1 [F2 [F3 [F4 [F5 F6]]]]].
+    destruct (tr_early (fun k => k = HUser) F3 ltac:(np) F4) as [X1 [X2 X3]].
+    unfold fresh. rewrite Esasl, Egs. repeat split; auto; congruence.
+  - (* POT *) intros A B. rewrite Eoh in A. rewrite Erp, Eps in B.
+    destruct (li_POT s L A B) as [[Q1 [Q2 [Q3 Q4]]] [P1 P2]].
+    destruct (tr_early (fun k => is_baseh k = true) Q1 ltac:(np) Q3) as [X1 [X2 X3]].
+    unfold quietS, prepost, strong_in. rewrite Esasl, Egs, Egf, Eps. repeat split; auto; congruence.
+  - (* POP *) intro A. rewrite Eoh in A. apply tr_noauth. apply (li_POP s L A).
+  - (* O *) intro A. rewrite Eoh in A. rewrite Esec, Est. apply (li_O s L A).
+  - (* R *) intros A B. rewrite Est in A. rewrite Eoh in B. rewrite Erp. apply (li_R s L A B).
+  - (* RP *) intros A B C. rewrite Est in A. rewrite Eraw in B. rewrite Erp in C. rewrite Eps. apply (li_RP s L A B C).
+  - (* RAW *) intro A. rewrite Eraw in A. destruct (li_RAW s L A) as [B [C [D E]]].
+    destruct (tr_early (fun k => k = HUser) C ltac:(np) D) as [X1 [X2 X3]].
+    rewrite Eoh. repeat split; auto.
+  - (* STUB *) intro A. rewrite Eoh in A. rewrite Eraw. apply (li_STUB s L A).
+  - (* COMP *) intro A. rewrite Eoh in A. destruct (li_COMP s L A) as [B [C D]].
+    destruct (tr_early (fun k => is_baseh k = true) B ltac:(np) C) as [X1 [X2 X3]]. repeat split; auto.
+  - (* Q *) intros x A B. destruct (tr_new_entry x A) as [X|X]; [apply (li_Q s L x X B)|exact X].
+  - (* M *) intros A B. rewrite Emand in A. unfold is_secured. rewrite Esec, Etlsf, Etlsp. apply (li_M s L A).
+    destruct B as [B|[x [B1 B2]]]; [left; apply tr_hasS; exact B|].
+    destruct (tr_new_entry x B1) as [X|X]; [right; exists x; auto|]. apply is_cred_neg in B2. congruence.
+  - (* D *) intros A x B. rewrite Edis in A. destruct (tr_new_entry x B) as [X|X]; [apply (li_D s L A x X)|].
+    intro E. rewrite E in X. discriminate.
+  - (* L *) intros x A B. rewrite Elauth, Etyp. destruct (tr_new_entry x A) as [X|X]; [apply (li_L s L x X B)|].
+    rewrite B in X. discriminate.
+  - (* PL *) intros x A B. rewrite Egs, Egf, Eps. destruct (tr_new_entry x A) as [X|X]; [apply (li_PL s L x X B)|].
+    rewrite B in X. discriminate.
+Qed.
+End Transfer.
+
+Definition cK : list fld := [Fsme; Fh; Fid; Ft; Fsq; Fsmq; Fcr; FhD; FidD].
+
+(* the generic preservation lemma: a function that only adds benign queue entries, removes handlers or
+   timers, and adds post-authentication handlers only when the state is already past authentication *)
+Lemma hinv_mono c p s s' :
+  HInv s -> eff c p s s' -> subl c cK = true ->
+  (forall x, pw p x -> benignE x) ->
+  (forall k, pt p k -> k <> TMissingFeatures) ->
+  (forall k, ph p k -> is_posth k = true /\ evP s) ->
+  (forall i, pid p i -> evP s) ->
+  (fmem Fsme c = true -> evP s) ->
+  (hasTMF s' -> hasF s -> hasF s') ->
+  HInv s'.
+Proof.
+  intros [G Lv] E Sub Pw Pt Ph Pi Ps H6.
+  pose proof (subl_ok _ _ Sub) as W.
+  destruct E as [U Lf St Sme [l [Q A]] Hh Hi Ht M HK IK C O].
+  split.
+  - constructor.
+    + assert (X : fmem Ftlss (c ++ DISC) = false) by (rewrite fmem_app, (W Ftlss eq_refl); reflexivity).
+      pose proof (U Ftlss X) as Y. cbn in Y. rewrite Y. apply (gi_T s G).
+    + intros w Hw. apply (gi_S s G). apply M. exact Hw.
+  - intro L'. destruct (live_back _ _ St L') as [L0 Est]. specialize (Lv L0). specialize (Lf L').
+    assert (F : frame cK s s') by (eapply frame_weaken; [exact W|exact Lf]).
+    apply (linv_transfer s s' (F Fdis eq_refl) (F Fmand eq_refl) (F Flauth eq_refl) (F Ftyp eq_refl) (F Fraw eq_refl)
+             (F Fst eq_refl) (F Fsec eq_refl) (F Ftlsp eq_refl) (F Ftlsf eq_refl) (F Fsasl eq_refl) (F Frp eq_refl)
+             (F Foh eq_refl) (F Fps eq_refl) (F Fgs eq_refl) (F Fgf eq_refl)); try assumption.
+    + intros k Hk. destruct (Hh k Hk) as [X|X]; [left; exact X|right; apply Ph; exact X].
+    + intros i Hi0. destruct (Hi i Hi0) as [X|X]; [left; exact X|right; eapply Pi; exact X].
+    + intro T. destruct (Ht _ T) as [X|X]; [exact X|]. exfalso. apply (Pt _ X). reflexivity.
+    + destruct (fmem Fsme c) eqn:Fs; [right; apply Ps; reflexivity|left]. exact (Lf Fsme Fs).
+    + exists l. split; [exact Q|]. eapply Forall_impl; [|exact A]. intros x [X|X]; [left; apply Pw; exact X|right; exact X].
+Qed.
